@@ -22,9 +22,16 @@ MODULE = "TraceSpiAccessor"
 ND = -9999
 
 
+CLOCK = 0   # how integer times map to time stamps: 0 = midnight steps of 5 days, 1 = 12:00 stamps, 2 = 37-hour units (odd clock times)
+
+
 def stamp(t):
     import pandas as pd
 
+    if CLOCK == 1:
+        return pd.Timestamp("2000-01-01 12:00") + pd.Timedelta(days=int(t) * 5)
+    if CLOCK == 2:
+        return pd.Timestamp("2000-01-01 06:30") + pd.Timedelta(hours=int(t) * 37)
     return pd.Timestamp("2000-01-01") + pd.Timedelta(days=int(t) * 5)
 
 
@@ -48,6 +55,8 @@ def flat(r):
 def execute(c):
     import pandas as pd
 
+    global CLOCK
+    CLOCK = c.get("clock", 0)
     from hdc.algo.ops.stats import gammastd_yxt
     from hdc.algo.utils import get_calibration_indices
 
@@ -120,6 +129,7 @@ def gen_cases(tier, seed):
 
     def add(c):
         c["tid"] = len(cases) + 1
+        c["clock"] = rng.choice([0, 1, 2])     # midnight stamps, 12:00 stamps, odd clock times
         cases.append(c)
 
     # the MC scope on the real code: axes of 2..4/5 steps over times 10..22 (even = on a step), labels odd = between
@@ -167,7 +177,7 @@ def gen_cases(tier, seed):
 
 
 def describe(c):
-    d = {k: c[k] for k in ("op", "time", "b", "e", "groups", "outcome", "attrs", "res") if k in c}
+    d = {k: c[k] for k in ("op", "time", "b", "e", "groups", "outcome", "attrs", "res", "clock") if k in c}
     if len(d.get("time", [])) > 14:
         d["time"] = f"<{len(c['time'])} steps {c['time'][0]}..{c['time'][-1]}>"
         d["groups"] = f"<{len(set(c['groups']))} groups>" if c["groups"] else []
@@ -202,7 +212,7 @@ def run(tier, seed):
 def replay(path):
     v = json.loads(open(path).read())
     t = v["trace"]
-    c = execute({k: t[k] for k in ("op", "time", "b", "e", "groups", "ng", "seed", "strdate", "dask") if k in t})
+    c = execute({k: t[k] for k in ("op", "time", "b", "e", "groups", "ng", "seed", "strdate", "dask", "clock") if k in t})
     c["tid"] = 1
     verdicts, _ = core.validate_batch(MODULE, [c], jobs=1)
     print("replayed", describe(c), "->", verdicts[1])
